@@ -379,4 +379,43 @@ Proof.
   destruct G as (s1' & G1 & G2). exists s', f', s1'. auto.
 Qed.
 
+(* the same for a lowered memory DESTINATION operand (a store) *)
+Theorem lowering_preserves_store_insn : forall m t s f rest cs a o ks kd srcs s1,
+  st_frames s = f :: rest ->
+  fresh t m ->
+  (m_index m <> None -> m_scale m = 1 \/ m_scale m = 2 \/ m_scale m = 4 \/ m_scale m = 8) ->
+  defd_opt (fr_regs f) (m_base m) -> defd_opt (fr_regs f) (m_index m) ->
+  lower m t = (cs, Some a) ->
+  Forall (no_temps (temps_list t)) srcs ->
+  exec_val isem regions s f o ks kd (Omem m) srcs = Ok s1 ->
+  exists s' f' s1',
+    run_chain s f cs = Some (s', f') /\
+    exec_val isem regions s' f' o ks kd (Omem (lowered_memop m a)) srcs = Ok s1' /\
+    sim_result (temps_list t) (length cs) s1 s1'.
+Proof.
+  intros m t s f rest cs a o ks kd srcs s1 Hfr Hfresh Hsc Hb Hi Hlow Hsrcs Hex.
+  destruct (lowered_operand_address m t s f rest cs a Hfr Hfresh Hsc Hb Hi Hlow)
+    as (s' & f' & Hrun & Hfr' & [Hm Hn He Ho] & Hsf & Hag & Haddr).
+  pose proof (all_blocks_same s s' f f' rest Hfr Hfr' (sf_blocks _ _ _ Hsf)) as Hbl.
+  assert (G : exists s1', exec_val isem regions s' f' o ks kd (Omem (lowered_memop m a)) srcs = Ok s1'
+                          /\ sim_result (temps_list t) (length cs) s1 s1').
+  { unfold exec_val in Hex |- *. rewrite (read_ops_agree _ s s' _ _ srcs Hm Hbl Hag Hsrcs).
+    destruct (read_ops regions s (fr_regs f) srcs) as [vs|e]; cbn [bind] in Hex |- *; [|discriminate].
+    match type of Hex with context [bind ?X _] => destruct X as [v|e] end; cbn [bind] in Hex |- *; [|discriminate].
+    match type of Hex with context [bind ?X _] => destruct X as [fl|e] end; cbn [bind] in Hex |- *; [|discriminate].
+    cbn [write_op bind] in Hex |- *. rewrite Haddr. unfold lowered_memop at 1. cbn [m_ty].
+    destruct (eval_addr (fr_regs f) m) as [ad|e]; cbn [bind] in Hex |- *; [|discriminate].
+    rewrite (store_same s s' _ _ _ Hm Hbl).
+    destruct (store regions s (m_ty m) (v_bits ad) v) as [m'|e]; cbn [bind] in Hex |- *; [|discriminate].
+    inversion Hex; subst s1; clear Hex. cbn [fst snd].
+    eexists. split; [reflexivity|].
+    unfold sim_result, upd_top. cbn [st_mem st_flags st_next st_events st_oracle st_frames].
+    rewrite Hn, He, Ho, Hfr, Hfr'. cbn [tl].
+    split; [reflexivity|]. split; [reflexivity|]. split; [reflexivity|]. split; [reflexivity|]. split; [reflexivity|].
+    eexists _, _, rest. split; [reflexivity|]. split; [reflexivity|]. split.
+    + destruct Hsf as [A B C D E]. constructor; unfold next_pc, set_pc; cbn; auto; try (rewrite C; lia).
+    + intros x Hx. unfold next_pc, set_pc. cbn [fr_regs]. apply Hag. exact Hx. }
+  destruct G as (s1' & G1 & G2). exists s', f', s1'. auto.
+Qed.
+
 End WithSem.
